@@ -35,6 +35,7 @@ type DBCfg struct {
 	WALBytesPerSync     int    `json:"wal_bytes_per_sync"`
 	WALRecycle          bool   `json:"wal_recycle"`
 	WALFailover         bool   `json:"wal_failover,omitempty"`
+	FailoverThreshUs    int    `json:"failover_thresh_us,omitempty"`
 	WALMinSyncUs        int    `json:"wal_min_sync_us,omitempty"`
 	FlushSplitBytes     int64  `json:"flush_split"`
 	MemTableStop        int    `json:"memtable_stop"`
@@ -454,7 +455,7 @@ func mixProfile(profile string, g *gen) (mixW, bool) {
 // forkPolicy returns how crash forks are taken for a profile and tier.
 func forkPolicy(profile, tier string) (mode string, n int) {
 	switch profile {
-	case "crash", "crash-sync", "flushdur", "fmv", "durable", "crashvalsep":
+	case "crash", "crash-sync", "flushdur", "fmv", "durable", "crashvalsep", "failover":
 		if tier == "thorough" {
 			return "all", 0
 		}
@@ -639,12 +640,18 @@ func (e *dbEngine) Generate(profile string, seed uint64, tier string) (*Plan, er
 	switch profile {
 	case "latest":
 		g.genLatest(nops)
-	case "crash", "crash-sync", "flushdur", "manifest", "fmv", "durable", "crashvalsep":
+	case "crash", "crash-sync", "flushdur", "manifest", "fmv", "durable", "crashvalsep", "failover":
+		if profile == "failover" {
+			g.cfg.WALFailover = true
+			g.cfg.DisableWAL = false
+			g.cfg.FailoverThreshUs = pick(&g.r, []int{200, 1000, 20000, 100000})
+			faults = g.genStalls()
+		}
 		if profile == "flushdur" && g.r.IntN(2) == 0 {
 			g.cfg.DisableWAL = true
 		}
 		if profile == "manifest" {
-			g.cfg.MaxManifestFileSize = pick(&g.r, []int64{1, 1, 128})
+			g.cfg.MaxManifestFileSize = pick(&g.r, []int64{1, 1, 128, 1 << 20, 1 << 20})
 		}
 		if profile == "fmv" {
 			g.cfg.FMV = fmvMin + g.r.IntN(fmvNewest-fmvMin)
